@@ -51,6 +51,12 @@ let () =
       (* Scan: succeeds with the same value iff the type matches (and the value validates) *)
       let valid = f.(14) = "1" in
       let sc = f.(15) in
+      (* the Scan matrix must be the same whatever the byte order of the document *)
+      if wf then begin
+        if f.(16) <> sc then fail id "SPEC" "scan_big_endian" (Printf.sprintf "le=%s be=%s" sc f.(16));
+        if f.(17) <> sc then fail id "SPEC" "scan_mixed_endian" (Printf.sprintf "le=%s mixed=%s" sc f.(17))
+      end;
+      String.iter (fun c -> if c = 'p' then fail id "SPEC" "scan_panics" (sc ^ " " ^ f.(16) ^ " " ^ f.(17))) (sc ^ f.(16) ^ f.(17));
       if wf then begin
         Array.iteri (fun i t ->
             let expect = if valid && geom_type g = t then 'o' else 'e' in
